@@ -8,6 +8,12 @@ NOT_APPLICABLE = {f"C{i:02d}": _PENDING for i in range(1, 21)}
 TRUST = "Trusted: rustc/std float semantics, the harness' own oracle code, the python driver. Held = held on the executions observed (exhaustive only for the sub-domains named in evidence)."
 
 CLAIMS = {
+    "C09": {
+        "text": "Reference-formula monitor: CIEDE2000 of Lab and Lch (f32/f64, both trait generations) is compared with an independent implementation of the Sharma/Wu/Dalal formulation (self-tested on their 34 pairs) on 60000 (thorough 6e6) pairs from structured families - hues straddling 0/360 with h1'+h2' on both sides of 360, |dh'| on both sides of 180 (the excluded band at exactly 180 is skipped and counted), zero chromas, C-bar near 25, L-bar near 50, mean hue near 275, nearly identical saturated colours - plus seeded pairs, to 1e-9 in f64; symmetry, identity, non-negativity, finiteness and polar == rectangular are checked on the same pairs. Delta E, improved Delta E, HyAB and Euclidean distance of Lab, Lch, Luv, Oklab, Xyz, Rgb, Cam16UcsJab and Cam16UcsJmh are compared with their closed forms, and the WCAG contrast of Srgb/LinSrgb/Luma with (L1+0.05)/(L2+0.05), its range, its symmetry (bit-exact) and the five threshold predicates on pairs aimed at the thresholds.",
+        "design_ref": "DESIGN.md section 3, C09",
+        "note": TRUST + " f32 CIEDE2000 is judged at 2e-3 + 2e-4 dE (cancellation in single precision).",
+        "technique": "runtime monitoring: differential check of the real difference functions against independent reference formulas + metric-law relations between calls",
+    },
     "C03": {
         "text": "Contract monitor over real calls: for each of 114 listed type instantiations the full cross product of {far below, 1 ulp below, on, inside, on, 1 ulp above, far above} per component (so every mixed below/above sign pattern, which the diagonal unit tests never reach) plus 20000 (thorough 2e6) seeded points in [lo-3W, hi+4W] is clamped; each event checks that the result reports itself within bounds, that in-bounds colours are returned bit-identically, idempotence, equality of the by-value and assigning forms, that every clamped component equals the documented accessor bound, that the hue is untouched and that is_within_bounds agrees with the documented bounds. For each of the 1836 listed conversion pairs from_color is compared bit for bit with from_color_unclamped followed by clamp, and try_from_color must be Ok exactly when the unclamped result is within bounds and carry that value in Ok or in the error.",
         "design_ref": "DESIGN.md section 3, C03",
